@@ -45,6 +45,7 @@ inductive DdsErr where
   | evalInEval | circularCall | overlappingPath | pathNotAbsolute | typeNotSupported | sequenceTooLong
   | missingArg            -- DDSException without code
   | missingPaths          -- DDSException from fetch_paths
+  | loadBeforeProduce     -- DDSException: a path is loaded before the evaluation produces it
   | objectNotFound        -- a name of the abstract program is not defined (outside well-formed worlds)
   | assertion             -- AssertionError ("Missing dep", …)
   | notImplemented
